@@ -62,6 +62,9 @@ func edfCaseCount(cs caseSpec) int {
 	if cs.Class == "directed" {
 		return 1
 	}
+	if cs.Class == "valid" {
+		return len(handEncodings())
+	}
 	if enumClasses[cs.Class] {
 		return enumCount(cs.Class, len(corpora[cs.Opt][cs.Item].enc))
 	}
@@ -72,6 +75,9 @@ func edfCaseCount(cs caseSpec) int {
 func edfCaseInput(cs caseSpec, idx int) []byte {
 	if cs.Class == "directed" {
 		return directedEDF()[cs.Item].data()
+	}
+	if cs.Class == "valid" {
+		return handEncodings()[idx].enc
 	}
 	if enumClasses[cs.Class] {
 		return enumInput(cs.Class, corpora[cs.Opt][cs.Item].enc, idx)
@@ -240,6 +246,8 @@ const bombsPerCase = 2
 
 // oracles --------------------------------------------------------------------------------
 
+var sinceBase int
+
 // the input whose decode calls are being timed by the CPU watchdog
 var pendingCall *callInfo
 
@@ -375,9 +383,16 @@ func checkDecode(caseIdx int, cs caseSpec, idx int, data []byte, o optset, a *ag
 		class = "ok: " + reflect.TypeOf(r.val).Kind().String()
 	}
 	nontrivial := !isTrivialClass(class, len(data))
+	if cs.Class == "valid" && r.err != nil {
+		a.extra["hand_built_valid_encodings_rejected"]++
+	}
 
 	// re-encode oracle
-	if r.err == nil && r.val != nil {
+	quirk := r.err == nil && r.val != nil && hasQuirkTime(reflect.ValueOf(r.val), 0)
+	if quirk {
+		a.extra["reencode_skipped_time_not_roundtripped_by_go_stdlib"]++
+	}
+	if r.err == nil && r.val != nil && !quirk {
 		events++
 		b := lib.TakeBuffer()
 		var eerr error
@@ -407,10 +422,16 @@ func checkDecode(caseIdx int, cs caseSpec, idx int, data []byte, o optset, a *ag
 					ec = strings.TrimSpace(strings.ReplaceAll(strings.TrimPrefix(errClass(r3.err), "err: malformed EDF:"), " N", ""))
 				}
 				sig := "roundtrip/re-decode-error/" + strings.ReplaceAll(ec, " ", "-")
-				if hasZeroSizeElem(reflect.TypeOf(r.val), 0) {
+				zeroWhere := ""
+				// the listed finding applies when the decoded value really holds a container of zero-size
+				// elements (static or behind an any) and the decoder rejected the re-encoding with its
+				// count-versus-remaining-bytes check
+				if zpath := zeroSizeContainer(reflect.ValueOf(r.val), "v", 0); zpath != "" && r3.err != nil &&
+					(strings.Contains(r3.err.Error(), "incorrect data length") || strings.Contains(r3.err.Error(), "end of data")) {
 					sig = "roundtrip/zero-size-elements-rejected"
+					zeroWhere = " (zero-size elements at " + zpath + ")"
 				}
-				mk(sig, fmt.Sprintf("re-encoded bytes of decoded %T do not decode: %v %v", r.val, r3.err, r3.escaped), map[string]any{"reencoded": hexOf(re)})
+				mk(sig, fmt.Sprintf("re-encoded bytes of decoded %T do not decode: %v %v%s", r.val, r3.err, r3.escaped, zeroWhere), map[string]any{"reencoded": hexOf(re)})
 			} else if ok, why := sameValue(r.val, r3.val); !ok {
 				sig := "roundtrip/value-differs"
 				if strings.Contains(why, "error text") && strings.Contains(why, "%") {
@@ -452,6 +473,56 @@ func hasZeroSizeElem(t reflect.Type, depth int) bool {
 		}
 	}
 	return false
+}
+
+// zeroSizeContainer walks a decoded value (dynamic types behind interfaces included) and returns the path of the
+// first non-empty slice/array with zero-size elements or non-empty map with zero-size keys and values; "" if none
+func zeroSizeContainer(v reflect.Value, path string, depth int) string {
+	if !v.IsValid() || depth > 24 {
+		return ""
+	}
+	switch v.Kind() {
+	case reflect.Interface, reflect.Pointer:
+		if v.IsNil() {
+			return ""
+		}
+		return zeroSizeContainer(v.Elem(), path, depth+1)
+	case reflect.Slice, reflect.Array:
+		if v.Len() > 0 && v.Type().Elem().Size() == 0 {
+			return fmt.Sprintf("%s %v", path, v.Type())
+		}
+		if v.Type().Elem().Size() == 0 {
+			return ""
+		}
+		for i := 0; i < v.Len() && i < 4096; i++ {
+			if p := zeroSizeContainer(v.Index(i), fmt.Sprintf("%s[%d]", path, i), depth+1); p != "" {
+				return p
+			}
+		}
+	case reflect.Map:
+		if v.Len() > 0 && v.Type().Key().Size() == 0 && v.Type().Elem().Size() == 0 {
+			return fmt.Sprintf("%s %v", path, v.Type())
+		}
+		it := v.MapRange()
+		for n := 0; it.Next() && n < 4096; n++ {
+			if p := zeroSizeContainer(it.Key(), path+"(key)", depth+1); p != "" {
+				return p
+			}
+			if p := zeroSizeContainer(it.Value(), fmt.Sprintf("%s[%v]", path, it.Key()), depth+1); p != "" {
+				return p
+			}
+		}
+	case reflect.Struct:
+		for i := 0; i < v.NumField(); i++ {
+			if !v.Type().Field(i).IsExported() {
+				continue
+			}
+			if p := zeroSizeContainer(v.Field(i), path+"."+v.Type().Field(i).Name, depth+1); p != "" {
+				return p
+			}
+		}
+	}
+	return ""
 }
 
 func max64(a, b int64) int64 {
@@ -534,6 +605,11 @@ func childEDF() {
 			if skip(idx) {
 				a.extra["not_executed_after_expensive_budget"]++
 				continue
+			}
+			if sinceBase++; sinceBase >= 256 {
+				// keep the heap profile baseline fresh: the site of an allocation out of proportion is the stack
+				// that allocated most since the baseline
+				profBase, sinceBase = profSnapshot(), 0
 			}
 			checkDecode(ci, cs, idx, in, o, a)
 		}
